@@ -109,8 +109,11 @@ def error_info(ac, text):
 def _timer(t):
     """t = None (disabled) or (hour, minute)."""
     # repository docstrings / test vectors: bit 8 of the first byte set = timer DISABLED
+    # t = None (disabled, 00:00) | (h, m) enabled | (h, m, "off") disabled with the time retained
     if t is None:
         return [0x80, 0]
+    if len(t) == 3:
+        return [0x80 | (t[0] & 0x1F), t[1] & 0x3F]
     return [t[0] & 0x1F, t[1] & 0x3F]
 
 
